@@ -1,24 +1,22 @@
 #!/bin/sh
-# usage: run_mutations.sh [diff...]  — applies each diff under mutations/ to a scratch worktree of /repo and
-# runs the property's check against it (static half only unless FULL=1); one outcome block per mutation.
-# C14 mutations are applied ON TOP of the four fixes/c14-*.patch, so that the baseline is clean.
+# usage: run_mutations.sh [diff...]  — applies each diff (default: mutations/*.diff and the C14/C19 seeds
+# seeded/<id>/patch.diff) to a scratch worktree of /repo HEAD and runs the property's check against it
+# (static half only unless FULL=1); one outcome block per mutation.  Since /repo HEAD 53395e5 the four
+# C14 fixes are in the tree, so every diff applies to HEAD directly.
 M=/verif/wip/abi-static/mutations
 WT=/tmp/wt-abi
 export VERIF_CACHE=${VERIF_CACHE:-/var/tmp/isal-verif-cache-abi}
 [ -d $WT ] || git -C /repo worktree add --detach $WT HEAD >/dev/null
-for d in ${@:-$M/*.diff}; do
-  n=$(basename $d .diff)
-  pid=$(echo $n | cut -c1-3 | tr a-z A-Z)
-  (cd $WT && git checkout -q .)
-  if [ $pid = C14 ]; then
-    for f in /verif/fixes/c14-*.patch; do (cd $WT && patch -p1 -s < $f) || echo "$n: FIX PATCH $f FAILED"; done
-  fi
-  [ -s $d ] && { (cd $WT && patch -p1 -s < $d) || { echo "$n: PATCH FAILED"; continue; }; }
+LIST=${@:-$M/*.diff /verif/seeded/C14-*/patch.diff /verif/seeded/C19-*/patch.diff}
+for d in $LIST; do
+  case $d in */patch.diff) n=seed-$(basename $(dirname $d)); pid=$(basename $(dirname $d) | cut -c1-3);; *) n=$(basename $d .diff); pid=$(echo $n | cut -c1-3 | tr a-z A-Z);; esac
+  (cd $WT && git checkout -q . && git clean -fdq)
+  if [ -s $d ]; then (cd $WT && patch -p1 -s < $d) || { echo "== $n: PATCH FAILED"; continue; }; fi
   if [ -n "$FULL" ]; then out=$(cd /verif && VERIF_REPO=$WT ./check $pid 2>&1); else out=$(cd /verif && ABI_STATIC_ONLY=1 VERIF_REPO=$WT ./check $pid 2>&1); fi
   rc=$?
   echo "== $n ($pid) rc=$rc violations=$(echo "$out" | grep -c '^VIOLATION')"
   echo "$out" | grep "^OK\|KNOWN" | head -3
-  echo "$out" | grep "detail" | head -4
+  echo "$out" | grep "detail" | head -4 | cut -c1-420
   cp /verif/evidence/$pid.json $M/$n.evidence.json 2>/dev/null
 done
-(cd $WT && git checkout -q .)
+(cd $WT && git checkout -q . && git clean -fdq)
